@@ -17,8 +17,8 @@ pub fn check(_ctx: &Ctx, st: &mut Stats, c: &Case) {
     let p = c.p.build();
     let res = match call(st, &p, c.site.loc(), s2d(&c.date), None) {
         Ok(r) => r,
-        Err(_) => {
-            st.count("panicked_cannot_decide(see C07)");
+        Err(pm) => {
+            st.violate("seven_entries", c, json!({"why": "the call panicked instead of returning seven entries", "panic": pm}));
             return;
         }
     };
